@@ -666,15 +666,15 @@ var (
 	users      = []string{"alice", "alice", "bob@example.com", "carol x", ""}
 	fileNames  = []string{"a.txt", "b.txt", "bench.out", "dir/c.txt", "x y.txt", "", "a.txt"}
 	nameBases  = []string{"Foo", "Bar", "Encode", "Xz", "X", "Foo"}
-	subKeys    = []string{"size", "n", "mode", "enc"}
+	subKeys    = []string{"size", "n", "mode", "enc", "name"}
 	subVals    = []string{"1", "16", "128", "", "a-b", "x.y", "é", "10", "9"}
 	bareVals   = []string{"small", "big", "1", "", "v-2"}
 	procs      = []string{"1", "4", "8", "16"}
 	rests      = []string{" 1 ns/op", "\t     100\t  12.5 ns/op", " 1 2 ns/op 3 B/op", "   2000000000\t0.33 ns/op\t  0 allocs/op", " 1 1 ns/op ", " 5 ns/op é", "\t7",
 		// per cent signs (nothing in a stored line is a format directive), lines without any blank
 		" 1 50 %hit", " 10 99.5 %", " 3 7 %d/op 2 100%", "\t5\t1 ns/op\t%s", " 1 2 %%", "\t100\t12.5\tns/op", "\t1\t2\tns/op\t3\tB/op"}
-	junk       = []string{"PASS", "ok  \tgolang.org/x/perf\t0.1s", "--- BENCH: BenchmarkFoo", "BenchmarkNoSpace", "# comment", "note:nospace", "Upper: x", "   indented: x", "FAIL", ": x", ":", ": ", "=: x", "Benchmark", "key value: x"}
-	seps       = []string{" ", " ", "\t", "  ", " \t"}
+	junk = []string{"PASS", "ok  \tgolang.org/x/perf\t0.1s", "--- BENCH: BenchmarkFoo", "BenchmarkNoSpace", "# comment", "note:nospace", "Upper: x", "   indented: x", "FAIL", ": x", ":", ": ", "=: x", "Benchmark", "key value: x"}
+	seps = []string{" ", " ", "\t", "  ", " \t"}
 )
 
 func pick(t *rapid.T, xs []string, label string) string {
